@@ -251,3 +251,16 @@ func (g *gen) exchangeAuthMatrix(emit func(string, M) M) {
 		}
 	}
 }
+
+// withdrawnGrant: clients of every kind obtain a refresh token, the administrator then withdraws the refresh grant from their
+// registration, and they try to redeem the token they still hold (with their registered credentials).
+func (g *gen) withdrawnGrant(emit func(string, M) M) {
+	for _, c := range []string{"cp", "cw", "cj"} {
+		_, rt, _ := lastNames(g.codeFlowOut(c, emit))
+		if rt == "none" || rt == "" {
+			continue
+		}
+		emit("Withdraw", M{"client": c, "grant": "refresh"})
+		emit("Refresh", M{"caller": c, "cred": g.rightCred(c), "rt": rt, "scopes": []string{}})
+	}
+}
